@@ -11,23 +11,27 @@ EXTENDS Integers, Sequences, FiniteSets, TLC, Json, IOUtils
 Trace == ndJsonDeserialize(IOEnv.TRACE)
 VARIABLES l, failed, stat
 tvars == <<l, failed, stat>>
-Stat0 == [calls |-> 0, failing |-> 0, streaming |-> 0, zeroMsg |-> 0, waiting |-> 0]
+Stat0 == [calls |-> 0, failing |-> 0, lockstep |-> 0, ctxCodes |-> 0, streaming |-> 0, zeroMsg |-> 0, waiting |-> 0]
 TInit == l = 1 /\ failed = {} /\ stat = Stat0
 
 \* the oracle of Proxy.tla, for the script of the event
-BackendReads(s) == IF s.failAt = "before" THEN 0
+LockStep(s) == s.mode = "lockstep"
+BackendReads(s) == IF LockStep(s) THEN (IF s.failK = 0 THEN s.n ELSE s.failK)
+                   ELSE IF s.failAt = "before" THEN 0
                    ELSE IF s.readN = 99 \/ s.failAt = "afterEOF" THEN s.n
                    ELSE IF s.readN < s.n THEN s.readN ELSE s.n
-WantReplies(s) == IF s.failAt = "before" THEN <<>>
+WantReplies(s) == IF LockStep(s) THEN [k \in 1..(IF s.failK = 0 THEN s.n ELSE s.failK - 1) |-> k]
+                  ELSE IF s.failAt = "before" THEN <<>>
                   \* grpc-go hands a single reply to the caller only together with an OK status
                   ELSE IF s.shape \in {"unary", "cstream"} /\ s.failAt # "never" THEN <<>>
                   ELSE [k \in 1..s.replyJ |-> k]
-WantCode(s) == IF s.failAt = "never" THEN 0 ELSE s.code
+Fails(s) == IF LockStep(s) THEN s.failK # 0 ELSE s.failAt # "never"
+WantCode(s) == IF Fails(s) THEN s.code ELSE 0
 
 DirectOK(e) ==
   LET s == e.s  d == e.direct IN
   /\ ~d.hang /\ d.replies = WantReplies(s) /\ d.code = WantCode(s)
-  /\ (s.failAt # "never" => d.msgequal /\ d.detequal)
+  /\ (Fails(s) => d.msgequal /\ d.detequal)
   /\ d.bcalls = 1 /\ d.mdok
   \* the backend saw a prefix of the client's messages, at least as long as the script reads
   /\ d.bgot = [k \in 1..Len(d.bgot) |-> k] /\ Len(d.bgot) >= BackendReads(s) /\ Len(d.bgot) <= s.n
@@ -47,7 +51,8 @@ TProxy ==
   /\ l <= Len(Trace) /\ Trace[l].ev = "Proxy"
   /\ LET e == Trace[l] IN
        /\ failed' = failed \cup {<<e.case, l, f>> : f \in Judge(e)}
-       /\ stat' = [stat EXCEPT !.calls = @ + 1, !.failing = @ + (IF e.s.failAt # "never" THEN 1 ELSE 0),
+       /\ stat' = [stat EXCEPT !.calls = @ + 1, !.failing = @ + (IF Fails(e.s) THEN 1 ELSE 0),
+                               !.lockstep = @ + (IF LockStep(e.s) THEN 1 ELSE 0), !.ctxCodes = @ + (IF Fails(e.s) /\ e.s.code \in {1, 4} THEN 1 ELSE 0),
                                !.streaming = @ + (IF e.s.shape # "unary" THEN 1 ELSE 0),
                                !.zeroMsg = @ + (IF e.s.n = 0 THEN 1 ELSE 0), !.waiting = @ + (IF e.s.wait THEN 1 ELSE 0)]
   /\ l' = l + 1
